@@ -2,7 +2,8 @@
    Proved on the model: the answer of `root` is the move of the last reported iteration; whenever the root node's
    move loop ends with a best move, that move is recorded and is legal in the root position; the root is never cut
    off by the null move; a table entry can only re-order the root's moves (ordering is a permutation).
-   Not proved: that the loop always ends with a best move when legal moves exist (needs the value bounds); decided by
+   Proved under a premise: if no successor is valued +INF or more, the root records a legal move whenever legal moves
+   exist.  Not proved: that premise itself (value bounds of evaluation and table entries); decided by
    the correspondence run over limits, histories, clocks and pre-filled tables. *)
 From Coq Require Import NArith ZArith List Bool Permutation.
 From Rawr Require Import Consts Bits Magic Position MoveGen MakeMove Eval TT Search SearchFacts SearchFacts2.
@@ -16,6 +17,15 @@ Theorem C03_root_node_best_legal : forall rec p s ao alpha beta ply depth in_chk
                 /\ snd (fst r) = None).
 Proof. exact root_node_best_legal. Qed.
 
+(* with legal moves at the root and no successor valued +INF or more, the root records a legal move: this is the
+   statement of the property at the root node, under a value-bound premise that is not proved yet *)
+Theorem C03_root_node_answers_legal : forall rec p s ao alpha beta ply depth in_chk cn ttm v s',
+  (forall q s a b pl d cn v s', rec q s a b pl d cn = Some (v, s') -> v < INF) ->
+  legal_moves p <> [] ->
+  nm_moves rec p s ao alpha beta ply depth in_chk true cn ttm = Some (v, s') ->
+  exists m, st_best (ss_stats s') = Some m /\ In m (legal_moves p).
+Proof. exact root_node_answers_legal. Qed.
+
 Theorem C03_answer_is_last_pv : forall (stopf : Stats -> bool) fuel p hist tt r,
   root stopf fuel p hist tt = Some r ->
   rr_best r = None \/ rr_best r = match rev (rr_infos r) with [] => None | i :: _ => Some (i_pv i) end.
@@ -25,5 +35,6 @@ Theorem C03_ordering_is_permutation : forall p ms tm, Permutation (sort_n p ms t
 Proof. exact sort_n_perm. Qed.
 
 Print Assumptions C03_root_node_best_legal.
+Print Assumptions C03_root_node_answers_legal.
 Print Assumptions C03_answer_is_last_pv.
 Print Assumptions C03_ordering_is_permutation.
